@@ -58,6 +58,7 @@ func rulesC02(c *Ctx) {
 	rulePageMatch(c, "C02.PAGEMATCH", "boltz")
 	// sort keys are decoded from the stored bytes: width/sign of every fixed-width decode
 	ruleDecodeWidth(c, "C02.DECODE")
+	c.As("C15.SCANFILTER", "C02.SCANFILTER", func() { ruleC15ScanFilter(c) })
 }
 
 // rulePageMatch: the skip/collected counters of the paged cursor count MATCHING rows: every
